@@ -496,6 +496,13 @@ def main(ck: Check):
     # floats: repr(x) must be ONE number token for the model's scanner as well
     float_sample = [rand_float(rng) for _ in range(400 if quick else 3000)]
 
+    # `xN <op>` with an astronomically large N: Python answers `[op] * N` with MemoryError / OverflowError or not,
+    # depending on the machine (a resource limit, not a rule of the language), and the model would build the list.
+    # Such texts are outside the comparison (counted); N up to 10^6 is compared.
+    huge_mult = re.compile(r"x\s*[+-]?0*[1-9]\d{6,}")
+    n_huge = sum(1 for t in body_texts + rt_texts if huge_mult.search(t))
+    body_texts = [t for t in body_texts if not huge_mult.search(t)]
+    rt_texts = [t for t in rt_texts if not huge_mult.search(t)]
     reqs = [{"fn": "dsl_parse_body", "text": t} for t in body_texts]
     reqs += [{"fn": "dsl_parse_runtime", "text": t} for t in rt_texts]
     n_body, n_runtime = len(body_texts), len(rt_texts)
@@ -522,7 +529,8 @@ def main(ck: Check):
 
     disagreements = 0
     stats = {"body": 0, "runtime": 0, "render_plan": 0, "float_token": 0, "is_space": 0, "py_int": 0,
-             "model_ambiguous_skipped": 0, "real_ok": 0, "real_syntax": 0, "real_valueError": 0, "real_yaml": 0}
+             "model_ambiguous_skipped": 0, "real_ok": 0, "real_syntax": 0, "real_valueError": 0, "real_yaml": 0,
+             "huge_multiplier_texts_outside_the_comparison": n_huge}
     parsed_ok_texts = []   # (text, real canonical result)
 
     num_re = re.compile(r"[+-]?(?:\d+\.?\d*|\.\d+)(?:[eE][+-]?\d+)?")
